@@ -60,12 +60,14 @@ Print Assumptions CS_enc_authenticate.
 
 (* replay_insert's outcome x the retry exemption: `already there` is success exactly for 0 < retry <= the retry limit
    with retries enabled, and EMUNGE_CRED_REPLAYED otherwise *)
-Theorem CS_dec_validate_replay : forall (cf : conf) (ins en c : Z) (m : msg),
-  src_dec_validate_replay cf ins en c m =
-  ((if (ins =? 0)%Z then 0
+Theorem CS_dec_validate_replay : forall (cf : conf) (clk ins en c : Z) (m : msg),
+  src_dec_validate_replay cf clk ins en c m =
+  ((if (ins =? 0)%Z then (if (clk =? -1)%Z then e_snafu
+                          else if (clk >? Z.of_N (m_time0 m) + Z.of_N (m_ttl m))%Z then e_cred_expired else 0)
     else if (ins >? 0)%Z
          then (if cf_socket_retry cf && (0 <? m_retry m) && (m_retry m <=? c_retry_attempts) then 0 else e_cred_replayed)
-    else if (en =? 12)%Z then e_no_memory else e_snafu), m, (if (ins =? 0)%Z then 1 else c)%Z).
+    else if (en =? 12)%Z then e_no_memory else e_snafu), m,
+   (if (ins =? 0)%Z && negb (clk =? -1)%Z && negb (clk >? Z.of_N (m_time0 m) + Z.of_N (m_ttl m))%Z then 1 else c)%Z).
 Proof. exact dec_validate_replay_is_source. Qed.
 Print Assumptions CS_dec_validate_replay.
 
@@ -131,38 +133,46 @@ Variable blk_enc blk_dec : N -> bytes -> bytes -> bytes.
 Variable zcomp : N -> bytes -> option bytes.
 Variable zdecomp : N -> bytes -> N -> option bytes.
 
-(* the translated dec_process_msg over the model's stage functions is dec_process followed by dec_rollback when the
-   reply could not be sent: the reply, the replay hash afterwards, the return code *)
-Theorem CS_dec_process_is_source : forall (cf : conf) (mem : N -> N -> bool) (pu pg now : N) (rs : rstate) (m : msg)
+(* the translated dec_process_msg over the model's stage functions is dec_process2 (now = the clock at receipt, now2 =
+   the clock read again after replay_insert) followed by dec_rollback when the reply could not be sent: the reply, the
+   replay hash afterwards, the return code *)
+Theorem CS_dec_process_is_source : forall (cf : conf) (mem : N -> N -> bool) (pu pg now now2 : N) (rs : rstate) (m : msg)
   (send_ok : bool),
-  let '(rc, s) := src_dec_process_msg (dec_ops hmac sha1 blk_dec zdecomp cf mem pu pg now send_ok) (dinit m rs) in
-  let '(r, rs', k) := dec_process hmac sha1 blk_dec zdecomp cf mem rs m pu pg now in
+  let '(rc, s) := src_dec_process_msg (dec_ops hmac sha1 blk_dec zdecomp cf mem pu pg now now2 send_ok) (dinit m rs) in
+  let '(r, rs', k) := dec_process2 hmac sha1 blk_dec zdecomp cf mem rs m pu pg now now2 in
   d_msg s = r /\ d_rs s = (if send_ok then rs' else dec_rollback rs' k) /\
-  rc = (if send_ok && dec_accepts hmac sha1 blk_dec zdecomp cf mem pu pg now rs m then 0 else -1)%Z.
+  rc = (if send_ok && dec_accepts hmac sha1 blk_dec zdecomp cf mem pu pg now now2 rs m then 0 else -1)%Z.
 Proof. exact (dec_process_is_source hmac sha1 blk_dec zdecomp). Qed.
 
-(* RetryModel's per-attempt use of dec_process / dec_rollback *)
+(* RetryModel's per-attempt use of dec_process / dec_rollback (the clock does not advance within an attempt: the second
+   reading is the first one as stored in the message, u32 now) *)
 Theorem CS_dec_attempt_is_source : forall (cf : conf) (mem : N -> N -> bool) (pu pg now : N) (cred : bytes)
   (rs : rstate) (i : nat),
-  let run so := src_dec_process_msg (dec_ops hmac sha1 blk_dec zdecomp cf mem pu pg now so) (dinit (attempt_msg cred i) rs) in
+  let run so := src_dec_process_msg (dec_ops hmac sha1 blk_dec zdecomp cf mem pu pg now (u32 now) so) (dinit (attempt_msg cred i) rs) in
   let att f := dec_attempt hmac sha1 blk_dec zdecomp cf mem cred pu pg now rs i f in
   att (Some ReqCut) = (rs, None) /\
   att (Some RspLost) = (d_rs (snd (run true)), None) /\
   att (Some RspSendFailed) = (d_rs (snd (run false)), None) /\
   att None = (d_rs (snd (run true)), Some (d_msg (snd (run true)))).
-Proof. exact (dec_attempt_is_source hmac sha1 blk_dec zdecomp). Qed.
+Proof.
+  exact (fun cf mem pu pg now cred rs i => dec_attempt_is_source hmac sha1 blk_dec zdecomp cf mem pu pg now (u32 now) cred rs i eq_refl).
+Qed.
 
-(* no stage but the replay stage touches the replay hash; the replay stage is last and does not insert when it fails *)
-Theorem CS_only_replay_stage_touches_replay_state : forall (cf : conf) (mem : N -> N -> bool) (pu pg now : N)
+(* no stage but the replay stage touches the replay hash; the replay stage is last; when it fails it has inserted
+   nothing (`already there`) or the record of a credential that expired between receipt and the replay step *)
+Theorem CS_only_replay_stage_touches_replay_state : forall (cf : conf) (mem : N -> N -> bool) (pu pg now now2 : N)
   (n : string) (s : dst),
   (n <> "dec_validate_replay"%string ->
-   d_rs (snd (dec_stage hmac sha1 blk_dec zdecomp cf mem pu pg now n s)) = d_rs s) /\
-  (stage_failed "dec_validate_replay" (fst (st_validate_replay cf s)) = true -> d_rs (snd (st_validate_replay cf s)) = d_rs s) /\
+   d_rs (snd (dec_stage hmac sha1 blk_dec zdecomp cf mem pu pg now now2 n s)) = d_rs s) /\
+  (stage_failed "dec_validate_replay" (fst (st_validate_replay cf now2 s)) = true ->
+   let k := cred_rkey (oo_tag (d_out s)) (d_msg s) in
+   d_rs (snd (st_validate_replay cf now2 s)) = d_rs s \/
+   (d_rs (snd (st_validate_replay cf now2 s)) = k :: d_rs s /\ r_mem k (d_rs s) = false /\ snd k < now2)) /\
   last dec_stage_order ""%string = "dec_validate_replay"%string.
 Proof.
-  exact (fun cf mem pu pg now n s =>
-           conj (stage_keeps_replay_state hmac sha1 blk_dec zdecomp cf mem pu pg now n s)
-                (conj (failed_replay_stage_keeps_replay_state cf s) replay_stage_is_last)).
+  exact (fun cf mem pu pg now now2 n s =>
+           conj (stage_keeps_replay_state hmac sha1 blk_dec zdecomp cf mem pu pg now now2 n s)
+                (conj (failed_replay_stage_keeps_replay_state cf now2 s) replay_stage_is_last)).
 Qed.
 
 Theorem CS_enc_process_is_source : forall (cf : conf) (pu pg now : N) (salt ivr : bytes) (m : msg) (send_ok : bool),
@@ -179,7 +189,7 @@ Print Assumptions CS_enc_process_is_source.
 
 (* the model's small stage functions are the translated C functions lifted to the request state (lift: code 0 = the
    stage returned 0 with the message as the C function left it, any other code = m_msg_set_err (m, code, ...) and -1) *)
-Theorem CS_dec_stages_are_source : forall (cf : conf) (mem : N -> N -> bool) (pu pg now : N) (s : dst),
+Theorem CS_dec_stages_are_source : forall (cf : conf) (mem : N -> N -> bool) (pu pg now now2 : N) (s : dst),
   (forall p : Z, (p = 0%Z <-> m_data_len (d_msg s) = 0) ->
      st_validate_msg s = lift s (src_dec_validate_msg cf p (d_msg s)) (Some (str "No credential specified in decode request"))) /\
   st_timestamp now s = lift s (src_dec_timestamp cf (Z.of_N now) (d_msg s)) (Some (str "Failed to query current time")) /\
@@ -192,19 +202,19 @@ Theorem CS_dec_stages_are_source : forall (cf : conf) (mem : N -> N -> bool) (pu
   (forall en : Z,
      let k := cred_rkey (oo_tag (d_out s)) (d_msg s) in
      let present := r_mem k (d_rs s) in
-     st_validate_replay cf s =
-     let '(r, c') := src_dec_validate_replay cf (if present then 1 else 0) en (b2z (d_new s)) (d_msg s) in
+     st_validate_replay cf now2 s =
+     let '(r, c') := src_dec_validate_replay cf (Z.of_N now2) (if present then 1 else 0) en (b2z (d_new s)) (d_msg s) in
      let '(v, s') := lift s r None in
      (v, with_new (if present then s' else with_rs s' (k :: d_rs s')) (negb (c' =? 0)%Z))).
 Proof.
-  exact (fun cf mem pu pg now s =>
+  exact (fun cf mem pu pg now now2 s =>
     conj (st_validate_msg_is_source cf s)
    (conj (st_timestamp_is_source cf now s)
    (conj (st_authenticate_is_source cf pu pg s)
    (conj (st_check_retry_is_source cf s)
    (conj (st_validate_auth_is_source cf mem s)
    (conj (st_validate_time_is_source cf s)
-         (st_validate_replay_is_source cf s))))))).
+         (st_validate_replay_is_source cf now2 s))))))).
 Qed.
 Print Assumptions CS_dec_stages_are_source.
 
